@@ -301,7 +301,20 @@ def op_programs():
         out_ = sgd(lambda p, i: grad(lambda q: np.sum(q["w"] ** 2) + np.sum(q["b"][0] * v[:2]))(p), params, num_iters=2, step_size=0.1)
         return onp.concatenate([onp.asarray(out_["w"], dtype=float), onp.asarray(out_["b"][0], dtype=float)])
 
-    progs = {"fine_flatten_own": fine_flatten_own, "fine_optimizer_step": fine_optimizer_step, "fine_const_graph": fine_const_graph, "fine_const_graph_hvp": fine_const_graph_hvp, "fine_shared_vjp": fine_shared_vjp, "fine_shared_unflatten": fine_shared_unflatten, "fine_holo": fine_holo, "fine_cwarn": fine_cwarn, "fine_jvp_own": fine_jvp_own, "fine_jvp_sharedfn": fine_jvp_sharedfn, "fine_fwd_over_rev": fine_fwd_over_rev, "fine_einsum_a": fine_einsum_a, "fine_einsum_b": fine_einsum_b, "fine_fft": fine_fft, "hvp_sort": hvp_sort, "grad_sort": grad_sort, "hvp_index": hvp_index, "nested_mixed": nested_mixed, "vjp_reuse": vjp_reuse,
+    # ONE user primitive with three traced operands (defvjp's generic branch), used by both threads on their own data,
+    # twice per thread; scheduling points between the applications and the backward passes
+    from autograd.extend import defvjp as _defvjp, primitive as _primitive
+
+    @_primitive
+    def fma3(a_, b_, c_):
+        return a_ * b_ + c_
+
+    _defvjp(fma3, lambda ans, a_, b_, c_: lambda g: g * b_, lambda ans, a_, b_, c_: lambda g: g * a_, lambda ans, a_, b_, c_: lambda g: g)
+
+    def fine_prim3(me, x, v):
+        return grad(lambda z: np.sum(fma3(z, np.sin(z) * v, z * z) * np.cos(z) + fma3(z * 2.0, z, np.exp(z * 0.1))))(x)
+
+    progs = {"fine_prim3": fine_prim3, "fine_flatten_own": fine_flatten_own, "fine_optimizer_step": fine_optimizer_step, "fine_const_graph": fine_const_graph, "fine_const_graph_hvp": fine_const_graph_hvp, "fine_shared_vjp": fine_shared_vjp, "fine_shared_unflatten": fine_shared_unflatten, "fine_holo": fine_holo, "fine_cwarn": fine_cwarn, "fine_jvp_own": fine_jvp_own, "fine_jvp_sharedfn": fine_jvp_sharedfn, "fine_fwd_over_rev": fine_fwd_over_rev, "fine_einsum_a": fine_einsum_a, "fine_einsum_b": fine_einsum_b, "fine_fft": fine_fft, "hvp_sort": hvp_sort, "grad_sort": grad_sort, "hvp_index": hvp_index, "nested_mixed": nested_mixed, "vjp_reuse": vjp_reuse,
              "shared_grad": shared_grad, "shared_hvp": shared_hvp, "shared_jvp": shared_jvp, "shared_grad_argnum": shared_grad_argnum}
     return box, progs
 
